@@ -317,6 +317,9 @@ type c21Case struct {
 	Cluster   bool   `json:"cluster_apply"`
 	Verifiers int    `json:"verifiers"`
 	Warm      bool   `json:"cache_warm"`
+	// Legacy: the token row predates the token_prefix column (prefix NULL, bare
+	// sha256 hash) and was back-filled to '__legacy__' at start-up.
+	Legacy bool `json:"legacy_row"`
 }
 
 func (c c21Case) String() string {
@@ -327,7 +330,11 @@ func (c c21Case) String() string {
 	if c.Warm {
 		w = "warm"
 	}
-	return fmt.Sprintf("%s/%s/%dv/%s", c.Kind, m, c.Verifiers, w)
+	o := ""
+	if c.Legacy {
+		o = "/legacy-row"
+	}
+	return fmt.Sprintf("%s/%s/%dv/%s%s", c.Kind, m, c.Verifiers, w, o)
 }
 
 func c21AllCases(maxVerifiers int) []c21Case {
@@ -336,12 +343,42 @@ func c21AllCases(maxVerifiers int) []c21Case {
 		for _, cl := range []bool{false, true} {
 			for v := 1; v <= maxVerifiers; v++ {
 				for _, w := range []bool{false, true} {
-					out = append(out, c21Case{k, cl, v, w})
+					out = append(out, c21Case{Kind: k, Cluster: cl, Verifiers: v, Warm: w})
 				}
 			}
 		}
 	}
+	// the same cases on a legacy-marked row, appended so that the case order
+	// (and with it the shard assignment) of the others is unchanged
+	for _, c := range append([]c21Case(nil), out...) {
+		c.Legacy = true
+		out = append(out, c)
+	}
 	return out
+}
+
+// c21InsertLegacyRow writes a token row the way a release without the
+// token_prefix column left it (no prefix, bare sha256 hash) and runs the
+// start-up back-fill that marks it '__legacy__'.
+func c21InsertLegacyRow(am *AuthManager, name, value, perms string, exp *time.Time) (int64, error) {
+	var e any
+	if exp != nil {
+		e = *exp
+	}
+	if _, err := am.db.Exec(`INSERT INTO api_tokens (name, token_hash, description, permissions, expires_at) VALUES (?, ?, '', ?, ?)`,
+		name, c21Sha(value), perms, e); err != nil {
+		return 0, err
+	}
+	am.backfillTokenPrefixes() // what initDB does on every start
+	var id int64
+	var prefix string
+	if err := am.db.QueryRow(`SELECT id, token_prefix FROM api_tokens WHERE name = ?`, name).Scan(&id, &prefix); err != nil {
+		return 0, err
+	}
+	if prefix != "__legacy__" {
+		return 0, fmt.Errorf("legacy row was not back-filled (prefix %q)", prefix)
+	}
+	return id, nil
 }
 
 type c21Result struct {
@@ -404,7 +441,9 @@ func c21RunSchedule(c c21Case, choose func(step, width int) int) *c21Result {
 		exp = &e
 	}
 	var id int64
-	if c.Cluster {
+	if c.Legacy {
+		id, err = c21InsertLegacyRow(am, "victim", old, "read,write", exp)
+	} else if c.Cluster {
 		id = 7
 		e := ClusterTokenEntry{ID: id, Name: "victim", Permissions: "read,write", TokenHash: c21Sha(old), TokenPrefix: tokenPrefix(old),
 			CreatedAtUnixNano: c21T0.UnixNano(), Enabled: true}
@@ -424,10 +463,14 @@ func c21RunSchedule(c c21Case, choose func(step, width int) int) *c21Result {
 		res.Harness = "create token: " + err.Error()
 		return res
 	}
-	if am.VerifyToken(old) == nil {
+	// warm-up: a miss that caches the entry, then a hit; afterwards two minutes
+	// pass on the fake clock (cache TTL is five), so the cached entry is neither
+	// brand new nor was it used within the last minute
+	if am.VerifyToken(old) == nil || am.VerifyToken(old) == nil {
 		res.Harness = "token does not authenticate before the mutation"
 		return res
 	}
+	VerifSetClock(c21T0.Add(2 * time.Minute))
 	if !c.Warm {
 		am.InvalidateCache()
 	}
@@ -552,6 +595,9 @@ func c21Account(r *c21Result) {
 		verifkit.Class("mode-direct")
 	}
 	verifkit.Class(fmt.Sprintf("verifiers-%d", r.Case.Verifiers))
+	if r.Case.Legacy {
+		verifkit.Class("legacy-row-token")
+	}
 	if r.Case.Warm {
 		verifkit.Class("cache-warm")
 	} else {
@@ -652,6 +698,10 @@ func TestVerifC21_Enumerate(t *testing.T) {
 	// heaviest cases first within a shard does not matter; distribute round-robin
 	for i, c := range cases {
 		if i%shards != shard%shards {
+			continue
+		}
+		if verifkit.Tier() != "thorough" && c.Legacy && c.Verifiers > 1 {
+			verifkit.Class("quick-tier-left-to-sampling:" + c.String())
 			continue
 		}
 		if verifkit.Tier() != "thorough" && c.Kind == "rotate" && !c.Cluster && c.Verifiers > 1 {
@@ -855,4 +905,119 @@ func TestVerifKF_C21_expiry_cache(t *testing.T) {
 	verifkit.Eval()
 	verifkit.KnownFinding(kfC21Expiry, g1 || g2,
 		fmt.Sprintf("token expires at T0+10s, cache TTL 5m, VerifyToken at T0 -> ok (cached); VerifyToken at T0+11s -> authenticates=%v (second call %v); expected: does not authenticate", g1, g2))
+}
+
+// ---------------------------------------------------------------------------
+// Sequential table on an on-disk database with real restarts: token minted by
+// the current code or carried over as a legacy row (inserted without prefix,
+// then the manager is restarted so start-up back-fills it) x mutation x
+// delivery x cache cold/warm x verify before/after another restart.
+// ---------------------------------------------------------------------------
+
+func TestVerifC21_Sequential(t *testing.T) {
+	VerifSetClock(c21T0)
+	defer VerifSetClock(time.Time{})
+	ctx := context.Background()
+	n := 0
+	for _, legacy := range []bool{false, true} {
+		for _, kind := range []string{"revoke", "delete", "rotate", "expire"} {
+			for _, cluster := range []bool{false, true} {
+				for _, warm := range []bool{false, true} {
+					for _, restartAfter := range []bool{false, true} {
+						n++
+						desc := fmt.Sprintf("legacy=%v kind=%s cluster=%v warm=%v restart-after=%v", legacy, kind, cluster, warm, restartAfter)
+						VerifSetClock(c21T0)
+						path := fmt.Sprintf("%s/seq-%d.db", t.TempDir(), n)
+						am, err := NewAuthManager(path, 5*time.Minute, 100, zerolog.Nop())
+						if err != nil {
+							t.Fatalf("VERIF-FAIL class=C21/harness %s: %v", desc, err)
+						}
+						old := fmt.Sprintf("c21-seq-token-value-%08d-0123456789abcdef", c21Seq.Add(1))
+						var exp *time.Time
+						if kind == "expire" {
+							e := c21T0.Add(time.Hour)
+							exp = &e
+						}
+						var id int64
+						if legacy {
+							var e any
+							if exp != nil {
+								e = *exp
+							}
+							_, err = am.db.Exec(`INSERT INTO api_tokens (name, token_hash, description, permissions, expires_at) VALUES ('victim', ?, '', 'read,write', ?)`, c21Sha(old), e)
+							if err == nil {
+								// restart: start-up finds the prefix-less row and marks it legacy
+								_ = am.Close()
+								am, err = NewAuthManager(path, 5*time.Minute, 100, zerolog.Nop())
+							}
+						} else {
+							err = am.insertToken(c21Sha(old), tokenPrefix(old), "victim", "", "read,write", exp)
+						}
+						if err == nil {
+							err = am.db.QueryRow(`SELECT id FROM api_tokens WHERE name='victim'`).Scan(&id)
+						}
+						if err != nil {
+							t.Fatalf("VERIF-FAIL class=C21/harness %s: create: %v", desc, err)
+						}
+						if am.VerifyToken(old) == nil {
+							t.Fatalf("VERIF-FAIL class=C21/harness %s: token does not authenticate before the mutation", desc)
+						}
+						if !warm {
+							am.InvalidateCache()
+						}
+						VerifSetClock(c21T0.Add(2 * time.Minute))
+						switch kind {
+						case "revoke":
+							if cluster {
+								err = am.ApplyRevokeToken(id)
+							} else {
+								err = am.RevokeToken(ctx, id)
+							}
+						case "delete":
+							if cluster {
+								err = am.ApplyDeleteToken(id)
+							} else {
+								err = am.DeleteToken(ctx, id)
+							}
+						case "rotate":
+							if cluster {
+								nv := old + "-rotated"
+								err = am.ApplyRotateToken(id, c21Sha(nv), tokenPrefix(nv))
+							} else {
+								_, err = am.RotateToken(ctx, id)
+							}
+						case "expire":
+							past := c21T0.Add(-time.Hour)
+							if cluster {
+								err = am.ApplyUpdateToken(ClusterTokenEntry{ID: id, Name: "victim", Permissions: "read,write", ExpiresAtUnixNano: past.UnixNano()})
+							} else {
+								err = am.UpdateToken(ctx, id, nil, nil, nil, &past)
+							}
+						}
+						if err != nil {
+							t.Fatalf("VERIF-FAIL class=C21/harness %s: mutation: %v", desc, err)
+						}
+						if restartAfter {
+							_ = am.Close()
+							am, err = NewAuthManager(path, 5*time.Minute, 100, zerolog.Nop())
+							if err != nil {
+								t.Fatalf("VERIF-FAIL class=C21/harness %s: restart: %v", desc, err)
+							}
+						}
+						a1, a2 := am.VerifyToken(old), am.VerifyToken(old)
+						_ = am.Close()
+						verifkit.Eval()
+						verifkit.Class("sequential-case")
+						if legacy {
+							verifkit.Class("sequential-legacy-row")
+							verifkit.NonTrivial("seq|" + desc)
+						}
+						if a1 != nil || a2 != nil {
+							t.Fatalf("VERIF-FAIL class=C21/old-value-authenticates-after-%s sequential %s: VerifyToken(old) after the mutation returned = %s, %s", kind, desc, c21Desc(a1), c21Desc(a2))
+						}
+					}
+				}
+			}
+		}
+	}
 }
